@@ -92,8 +92,15 @@ def _has_return(node) -> bool:
 
 
 def _inlinable(func) -> bool:
-    if func.args.vararg or func.args.kwarg or func.args.posonlyargs:
+    if func.args.vararg or func.args.posonlyargs:
         return False
+    if func.args.kwarg:
+        # **kw is supported when the body only forwards it (`g(..., **kw)`)
+        kw = func.args.kwarg.arg
+        fwd = sum(1 for n in ast.walk(func) if isinstance(n, ast.keyword) and n.arg is None and isinstance(n.value, ast.Name) and n.value.id == kw)
+        uses = sum(1 for n in ast.walk(func) if isinstance(n, ast.Name) and n.id == kw)
+        if uses != fwd:
+            return False
     for d in func.decorator_list:
         if not (isinstance(d, ast.Name) and d.id == "staticmethod"):
             return False
@@ -296,9 +303,15 @@ class Inliner:
         for p, a in zip(params, args):
             binding[p] = a
         kwonly = [a.arg for a in func.args.kwonlyargs]
+        extras = []
         for kw in call.keywords:
-            if kw.arg in binding or (kw.arg not in params and kw.arg not in kwonly):
+            if kw.arg in binding:
                 return None
+            if kw.arg not in params and kw.arg not in kwonly:
+                if func.args.kwarg is None:
+                    return None
+                extras.append(kw)
+                continue
             binding[kw.arg] = kw.value
         defaults = func.args.defaults
         for i, p in enumerate(params):
@@ -350,6 +363,18 @@ class Inliner:
                 mapping[v] = ast.Name(id=f"{v}__{func.name.strip('_')}{k}", ctx=ast.Load())
         sub = _Subst(mapping)
         body = [sub.visit(st) for st in body]
+        if func.args.kwarg is not None:
+            kwn = func.args.kwarg.arg
+            for st in body:
+                for c in ast.walk(st):
+                    if isinstance(c, ast.Call):
+                        newk = []
+                        for k_ in c.keywords:
+                            if k_.arg is None and isinstance(k_.value, ast.Name) and k_.value.id == kwn:
+                                newk.extend(copy.deepcopy(x) for x in extras)
+                            else:
+                                newk.append(k_)
+                        c.keywords = newk
         lowered = _lower(body, mode, target)
         out = pre + lowered
         return _drop_self_assign(out)
@@ -467,6 +492,17 @@ class Inliner:
             for h in getattr(st, "handlers", []) or []:
                 if self._rewrite_block(h.body, cls, names, owner):
                     changed = True
+            # `x = A if c else B` / `return A if c else B` with a new helper called in one arm: written out as an if statement so that the arm can be inlined
+            if isinstance(st, (ast.Assign, ast.Return)) and isinstance(st.value, ast.IfExp) and \
+                    (self._find_call(st.value.body, cls) is not None or self._find_call(st.value.orelse, cls) is not None) and self._find_call(st.value.test, cls) is None:
+                ie = st.value
+                mk = (lambda v: ast.copy_location(ast.Assign(targets=copy.deepcopy(st.targets), value=v, lineno=st.lineno), st)) if isinstance(st, ast.Assign) \
+                    else (lambda v: ast.copy_location(ast.Return(value=v), st))
+                new_if = ast.copy_location(ast.If(test=ie.test, body=[mk(ie.body)], orelse=[mk(ie.orelse)]), st)
+                ast.fix_missing_locations(new_if)
+                stmts[i] = new_if
+                changed = True
+                continue
             # the expression part of this statement
             header = None
             if isinstance(st, (ast.Assign, ast.AugAssign, ast.AnnAssign, ast.Return, ast.Expr)):
